@@ -754,6 +754,61 @@ fn main() {
             };
             xt::xone(e, args[3].parse().unwrap(), args[4].parse().unwrap(), &unhex(&args[5]));
         }
+        Some("giant") => {
+            // a head whose single header value is 4 GiB (+ 16 bytes): offsets beyond 32 bits on a
+            // 64-bit host. Expectations are computed from the construction, not from a model.
+            #[cfg(target_pointer_width = "64")]
+            {
+                force(&backend);
+                let vlen: usize = (4usize << 30) + 16;
+                let mut bad = 0;
+                for (kind, pre) in [("request", &b"GET /x HTTP/1.1\r\nA: "[..]), ("response", b"HTTP/1.1 200 OK\r\nA: "), ("headers", b"A: ")] {
+                    let total = pre.len() + vlen + 4;
+                    let mut buf: Vec<u8> = Vec::new();
+                    if buf.try_reserve_exact(total).is_err() {
+                        println!("giant skipped: cannot allocate {} bytes", total);
+                        return;
+                    }
+                    buf.extend_from_slice(pre);
+                    buf.resize(pre.len() + vlen, b'v');
+                    buf.extend_from_slice(b"\r\n\r\n");
+                    let mut arr = [EMPTY_HEADER; 4];
+                    let (st, hs): (Option<usize>, Vec<(usize, usize, usize, usize)>) = {
+                        let base = buf.as_ptr() as usize;
+                        let f = |h: &[Header<'_>]| h.iter().map(|h| (h.name.as_ptr() as usize - base, h.name.len(), (h.value.as_ptr() as usize).wrapping_sub(base), h.value.len())).collect::<Vec<_>>();
+                        match kind {
+                            "request" => {
+                                let mut r = Request::new(&mut arr);
+                                match r.parse(&buf) {
+                                    Ok(Status::Complete(n)) => (Some(n), f(r.headers)),
+                                    _ => (None, Vec::new()),
+                                }
+                            }
+                            "response" => {
+                                let mut r = Response::new(&mut arr);
+                                match r.parse(&buf) {
+                                    Ok(Status::Complete(n)) => (Some(n), f(r.headers)),
+                                    _ => (None, Vec::new()),
+                                }
+                            }
+                            _ => match httparse::parse_headers(&buf, &mut arr) {
+                                Ok(Status::Complete((n, h))) => (Some(n), f(h)),
+                                _ => (None, Vec::new()),
+                            },
+                        }
+                    };
+                    let want = (Some(total), vec![(pre.len() - 3, 1, pre.len(), vlen)]);
+                    if (st, hs.clone()) != want {
+                        bad += 1;
+                        println!("GIANT {}: Complete offset {:?} headers {:?}, expected {:?} {:?}", kind, st, hs, want.0, want.1);
+                    }
+                }
+                println!("giant: 3 heads of 4 GiB + 16 value bytes, {} wrong", bad);
+                std::process::exit(if bad > 0 { 1 } else { 0 });
+            }
+            #[cfg(not(target_pointer_width = "64"))]
+            println!("giant skipped: not a 64-bit target");
+        }
         Some("dump") => {
             force(&backend);
             let p: usize = args[2].parse().unwrap();
